@@ -321,8 +321,10 @@ func (d *Decoder) Decode() (orb.Geometry, int, error) {
 }
 
 func readByteOrderType(r io.Reader, buf []byte) (byteOrder, uint32, int, error) {
-	// the byte order is the first byte
-	if _, err := r.Read(buf[:1]); err != nil {
+	// the byte order is the first byte.
+	// io.ReadFull, as for every other read: a reader may return 0 bytes and
+	// a nil error, that is not the byte yet.
+	if _, err := io.ReadFull(r, buf[:1]); err != nil {
 		return 0, 0, 0, err
 	}
 
